@@ -8,7 +8,7 @@ IDS = ["Alpha", "Beta", "Gamma", "Delta", "Eps", "Zeta", "Eta", "Theta", "Iota",
 
 
 # variant identifiers that also name things generated code mentions (associated types, prelude items)
-TIDS = ["None", "Some", "type", "Err", "Error", "Iterator", "fn", "Output", "Default", "Option", "match", "Discriminant"]
+TIDS = ["None", "Discriminant", "type", "Err", "Error", "Iterator", "fn", "Output", "Default", "Option", "match", "Some"]
 
 
 def ids_for(did):
